@@ -228,7 +228,7 @@ def disk_base():
         import atexit
         import tempfile
         d = None
-        if os.path.isdir("/dev/shm") and os.access("/dev/shm", os.W_OK):
+        if os.path.isdir("/dev/shm") and os.access("/dev/shm", os.W_OK) and os.environ.get("VERIF_C19_NO_TMPFS") != "1":
             try:
                 d = tempfile.mkdtemp(prefix="verif_c19_", dir="/dev/shm")
                 atexit.register(shutil.rmtree, d, True)
